@@ -6,10 +6,14 @@ import (
 	"path"
 	"time"
 
+	"google.golang.org/grpc"
+	"google.golang.org/protobuf/types/known/timestamppb"
+
 	"github.com/drand/drand/v2/common"
 	"github.com/drand/drand/v2/common/key"
 	"github.com/drand/drand/v2/crypto"
 	"github.com/drand/drand/v2/internal/dkg"
+	"github.com/drand/drand/v2/internal/net"
 	"github.com/drand/drand/v2/internal/util"
 	"github.com/drand/drand/v2/internal/zzfake"
 	zz "github.com/drand/drand/v2/internal/zzverif"
@@ -153,4 +157,72 @@ func ZZ_C15_files() {
 	}
 	zz.Assert("the_secret_was_written", zz.SecretFileCount() >= 1)
 	zz.Assert("files_holding_secrets_are_owner_only", zz.SecretFilesAreOwnerOnly())
+}
+
+func init() { zz.Register("ZZ_C15_dkgGossip", ZZ_C15_dkgGossip) }
+
+// zzDKGClient records what the DKG process sends to other nodes.
+type zzDKGClient struct{ packets []*pdkg.GossipPacket }
+
+func (c *zzDKGClient) Packet(_ context.Context, _ net.Peer, packet *pdkg.GossipPacket, _ ...grpc.CallOption) (*pdkg.EmptyDKGResponse, error) {
+	c.packets = append(c.packets, packet)
+	return &pdkg.EmptyDKGResponse{}, nil
+}
+func (c *zzDKGClient) BroadcastDKG(context.Context, net.Peer, *pdkg.DKGPacket, ...grpc.CallOption) (*pdkg.EmptyDKGResponse, error) {
+	return &pdkg.EmptyDKGResponse{}, nil
+}
+
+// ZZ_C15_dkgGossip: what the key-generation service hands back to remote parties. A gossip packet (genuine, or
+// passing every state check but badly signed, or malformed) reaches Process.Packet of a node whose long-term
+// private key is a secret; an operator command makes the node sign and gossip. Neither the answer or ERROR
+// returned to the remote sender, nor any packet the node gossips, nor anything given to the logger depends on
+// the private key (signatures are the legitimate, declassified use).
+func ZZ_C15_dkgGossip() {
+	sch := zzfake.Scheme(crypto.DefaultSchemeID)
+	pair, _, _ := zzSecretNode(sch)
+	me, err := util.PublicKeyAsParticipant(pair.Public)
+	if err != nil {
+		panic(err)
+	}
+	leaderPair := zzfake.KeyPair(sch, "node1.example:4001", "c15-other")
+	leader, _ := util.PublicKeyAsParticipant(leaderPair.Public)
+	store, err := dkg.NewDKGStore(zz.TempDir("c15dkg"))
+	if err != nil {
+		panic(err)
+	}
+	cl := &zzDKGClient{}
+	proc := dkg.NewDKGProcess(store, &zzIdent{pair}, util.NewFanOutChan[dkg.SharingOutput](), cl, nil,
+		dkg.Config{Timeout: time.Hour, TimeBetweenDKGPhases: time.Second, KickoffGracePeriod: time.Hour}, zzfake.Logger())
+	ctx := context.Background()
+	terms := &pdkg.ProposalTerms{BeaconID: "default", Epoch: 1, Leader: leader, Threshold: 2, Timeout: timestamppb.New(time.Now().Add(time.Hour)),
+		GenesisTime: timestamppb.New(time.Unix(1700000000, 0)), CatchupPeriodSeconds: 15, BeaconPeriodSeconds: 30, SchemeID: sch.Name,
+		Joining: []*pdkg.Participant{leader, me}}
+	pkt := &pdkg.GossipPacket{Packet: &pdkg.GossipPacket_Proposal{Proposal: terms}}
+	switch zz.Choose("incoming", 3) {
+	case 0: // genuine: signed by the leader over these terms
+		pkt.Metadata = &pdkg.GossipMetadata{BeaconID: "default", Address: leader.Address, Signature: dkg.ZZSign(leaderPair, "default", pkt, terms)}
+	case 1: // passes every state-machine check but the signature does not verify
+		pkt.Metadata = &pdkg.GossipMetadata{BeaconID: "default", Address: leader.Address, Signature: zz.Bytes("bad.sig", 8)}
+	case 2: // refused by the state machine (threshold too high)
+		terms.Threshold = 9
+		pkt.Metadata = &pdkg.GossipMetadata{BeaconID: "default", Address: leader.Address, Signature: zz.Bytes("bad.sig", 8)}
+	}
+	resp, perr := proc.Packet(ctx, pkt)
+	zz.Quiesce()
+	zz.Trace("packet error: %v | secret key: %s", perr, pair.Key)
+	zz.Observe("packet_response", resp)
+	zz.Observe("packet_error", perr)
+	if perr == nil && zz.Bool("then_operator_joins") {
+		_, cerr := proc.Command(ctx, &pdkg.DKGCommand{Metadata: &pdkg.CommandMetadata{BeaconID: "default"}, Command: &pdkg.DKGCommand_Join{Join: &pdkg.JoinOptions{}}})
+		zz.Quiesce()
+		zz.Observe("command_error", cerr)
+	}
+	for _, g := range cl.packets {
+		zz.Observe("gossiped_packet", g)
+	}
+	st, serr := proc.DKGStatus(ctx, &pdkg.DKGStatusRequest{BeaconID: "default"})
+	zz.Observe("dkg_status_response", st)
+	zz.Observe("dkg_status_error", serr)
+	zz.Assert("nothing_secret_reaches_the_logger", zz.LogsAreClean())
+	proc.Close()
 }
